@@ -337,7 +337,30 @@ def r9_loop_exits(ctx):
         ctx.missing("R05.9", "`remain_payload_len > 0` test in the shaping loop")
 
 
+def r10_scheme_parse(ctx):
+    """the scheme-line parser is whitespace tolerant at the granularity of one entry: the check-mark test and the range
+    split both look at the trimmed entry"""
+    gen = ctx.body("R05.10", "padding::factory::PaddingFactory::generate_record_payload_sizes")
+    if gen is None:
+        return
+    conds, o = ctx.conds(gen), ctx.origins(gen)
+    cm = [c for c in conds.all() if c.kind == "bool" and is_call_term(c.term, "::eq", "::ne") and any(isinstance(a, tuple) and a[0] == "const" and a[3] in ('"c"', 'const "c"') for a in c.term[3])]
+    if not ctx.floor("R05.10", "check-mark test (`== \"c\"`) in generate_record_payload_sizes", len(cm), 1):
+        return
+    other = [a for a in cm[0].term[3] if not (isinstance(a, tuple) and a[0] == "const")]
+    ok = bool(other) and is_call_term(other[0], "str::trim", "::trim")
+    ctx.ob("R05.10", "generate_record_payload_sizes:check-mark-on-trimmed-entry", ok, "", "an entry is compared with \"c\" after trim()" if ok else
+           "the check-mark test looks at the untrimmed entry (`%s`): in a scheme written with blanks (`50-50, c, 60-60`) the check mark is not recognised, so a packet whose payload is used up does not stop there and "
+           "emits the later sizes as padding-only records" % fmt(other[0])[:80] if other else "?")
+    sp = calls_norm(gen, "str::split_once")
+    oks = bool(sp) and is_call_term(o.of_operand(sp[0].args[0]), "str::trim", "::trim")
+    ctx.ob("R05.10", "generate_record_payload_sizes:range-split-on-trimmed-entry", oks, sp[0].site if sp else "", "min-max is split from the trimmed entry" if oks else "the range is split from an untrimmed entry")
+
+
 def run(ctx):
+    from . import C19
+    C19.r2_new_sessions(ctx)   # the preamble (line 0) and the session (lines 1..) are given one and the same scheme object
+    r10_scheme_parse(ctx)
     r1_index_origins(ctx)
     r2_stop(ctx)
     r3_role(ctx)
